@@ -1,4 +1,6 @@
-from contracts import optframe
+from contracts import optframe, fresh
 
 def build(tier):
-    return dict(targets=optframe.targets(tier), assumptions=[f"exempt {k}: {v}" for k, v in sorted(optframe.EXEMPT.items())], trusted_base=[])
+    # the frame (reads of Options within the key) plus the gate: find_cache_meta really rejects a record
+    # whose options snapshot differs, validate_meta's ignore_all rule (silenced site packages)
+    return dict(targets=optframe.targets(tier) + fresh.targets(tier), assumptions=[f"exempt {k}: {v}" for k, v in sorted(optframe.EXEMPT.items())], trusted_base=[])
